@@ -173,6 +173,9 @@ fn block(c: &mut Cur, h: &Header, tsz: usize) -> Result<Block, String> {
     if h.typecnt == 0 {
         return Err("typecnt is zero".into());
     }
+    if types.iter().any(|t| t.utoff == i32::MIN) {
+        return Err("utoff of -2^31 (RFC 8536: must not be used)".into());
+    }
     if h.isstdcnt != 0 && h.isstdcnt != h.typecnt {
         return Err("isstdcnt".into());
     }
@@ -497,7 +500,7 @@ impl RefZone {
         if !self.leaps.is_empty() {
             // leap-second time scale: only instants well away from any change are judged
             for (tt, _) in &self.trans {
-                if (t - tt).abs() < 60 {
+                if t.saturating_sub(*tt).saturating_abs() < 60 {
                     return Answer::Unjudged("within 60 s of a transition in a file with leap-second records");
                 }
             }
